@@ -800,6 +800,17 @@ func Run(ctx *common.Ctx) int {
 			}
 		}
 	}
+	if !quick {
+		// ladder of deviation bounds for the smallest configuration: distinct scheduler-visible states per bound
+		for _, nW := range []int{1, 2} {
+			pl, _ := json.Marshal(Params{Mode: "sched", Scale: "2E4", Files: 1, Workers: nW})
+			for b := 1; b <= 6; b++ {
+				for sh := 0; sh < 16; sh++ {
+					tasks = append(tasks, e1.Task{Check: "C13", Name: fmt.Sprintf("c13/ladder/F1/n%d/b%d", nW, b), Params: pl, Bound: b, W: 4, Shard: sh, NShards: 16, CostAll: true, TrackStates: true})
+				}
+			}
+		}
+	}
 	ctx.Printf("C13: %d tasks; discovered %v (instrumented constructs: %v)\n", len(tasks), ts, info.Counts)
 	m := e1.RunTasks(ctx, info.Bin, tasks, 0, false)
 	var samples []interface{}
@@ -929,12 +940,13 @@ func Run(ctx *common.Ctx) int {
 	}
 	sort.Strings(sigs)
 	cov := common.Coverage{
-		"states":                        maxInt(len(m.States), 1),
-		"transitions":                   maxInt(m.Transitions, 1),
-		"traces_validated_against_impl": m.Execs,
-		"evaluations":                   m.Execs + e2e,
-		"distinct_nontrivial":           len(m.States),
-		"samples":                       samples,
+		"distinct_states_per_bound_ladder": m.StatesPerTask,
+		"states":                           maxInt(len(m.States), 1),
+		"transitions":                      maxInt(m.Transitions, 1),
+		"traces_validated_against_impl":    m.Execs,
+		"evaluations":                      m.Execs + e2e,
+		"distinct_nontrivial":              len(m.States),
+		"samples":                          samples,
 		"rule": "columns: each scale's header is parsed into (test, P/Q/P1/Q1/P2/Q2, parameter) columns and is the specification; the scale's worker (discovered from main's switch) is driven on 8 files of 25000 bytes and every column compared to 6 decimals with the library call its label names; " +
 			"schedules: the real (instrumented) main() with os.Args set runs on F in {1,2,3} 20000-bit files x n in {1,2,3(,64)} workers; every schedule with at most d non-default scheduling decisions; main's return is process exit and the report is judged at that instant (header, one complete row per file, values); end-to-end runs of the built binary",
 		"outcome_signatures":       sigs,
